@@ -89,8 +89,14 @@ func (v MV) toGo(flavour int) interface{} {
 		return v.B
 	case mkNum:
 		if v.N > 1<<53 || v.N < -(1<<53) {
-			// a float64 (or the int -> float64 path of the library's input normalisation) cannot
-			// hold it: hand it over the way a formula would have produced it
+			// a float64 cannot hold it: hand it over as a Go integer, or the way a formula
+			// would have produced it
+			switch flavour % 4 {
+			case 0:
+				return int(v.N)
+			case 1:
+				return int64(v.N)
+			}
 			return decimal.WithContext(decimal.Context128).SetMantScale(v.N, 0)
 		}
 		switch flavour % 4 {
